@@ -12,6 +12,7 @@
 use std::fmt::Write as _;
 use std::io::Write as _;
 
+pub mod batchgen;
 pub mod leafgen;
 pub mod plonk;
 
